@@ -42,10 +42,10 @@ def run(ctx):
     ctx.floor('record_building_functions', _recleaks(ctx, rep, 'R12.13', ctx.functions(['petl.transform', 'petl.util.base'])), 8)
     rep.rule('R12.11', 'cells are compared with the caller\'s `missing` value by equality, never by identity')
     rep.rule('R12.12', 'rowgetter returns selectors that raise IndexError on a short row (subscript / itemgetter, never a slice)')
-    r1211(ctx, rep)
-    r1212(ctx, rep)
+    ctx.attempt(r1211, ctx, rep)
+    ctx.attempt(r1212, ctx, rep)
     rep.rule('R12.14', 'rename is simultaneous: the output header is computed from the input names, never read back while it is being built')
-    r1214(ctx, rep)
+    ctx.attempt(r1214, ctx, rep)
     from ..typestate import check_sentinels as _sentinels
     rep.rule('R12.10', 'a local that starts as None is not compared (==, !=) with per-row values before it was tested for None: None is a legal key and cell value')
     ctx.floor('sentinel_scan_functions', _sentinels(ctx, rep, 'R12.10', ctx.functions(['petl.transform', 'petl.util.base'])), 200)
@@ -70,15 +70,21 @@ def run(ctx):
     rep.rule('R12.5', '`missing` is forwarded unchanged (function calls and view -> iterator plumbing)')
     rep.assumptions = ['frozen lists of one-to-one and documented-padding operators (from the property statement and docstrings)']
     rep.trusted = ['per-path yield counting', 'decision-table extractor']
-    r121(ctx, rep)
-    r122(ctx, rep)
-    r123(ctx, rep)
-    r124(ctx, rep)
-    r125(ctx, rep)
+    ctx.attempt(r121, ctx, rep)
+    ctx.attempt(r122, ctx, rep)
+    ctx.attempt(r123, ctx, rep)
+    ctx.attempt(r124, ctx, rep)
+    ctx.attempt(r125, ctx, rep)
     rep.rule('R12.7', 'a source row is never tested for truth (the empty row is falsy)')
-    r127(ctx, rep)
+    ctx.attempt(r127, ctx, rep)
     rep.rule('R12.8', 'Record(row, flds): flds are the text names of the header the row came with')
-    r128(ctx, rep)
+    ctx.attempt(r128, ctx, rep)
+    from .common import check_fill_mismatches as _fills
+    rep.rule('R12.16', 'where tables of unequal length are zipped, the test for the exhausted side compares with the fill value handed to zip_longest')
+    ctx.floor('zip_longest_functions', ctx.attempt(_fills, ctx, rep, 'R12.16', ctx.functions(['petl.transform', 'petl.util'])) or 0, 2)
+    from .common import check_late_binding as _late
+    rep.rule('R12.15', 'a converter / getter function created in a loop over the field specifications does not read the loop\'s variables late (it is called after the loop ended)')
+    ctx.floor('functions_with_loops', ctx.attempt(_late, ctx, rep, 'R12.15', ctx.functions(['petl.transform', 'petl.util'])) or 0, 100)
     from .plumbing import check_plumbing
     rep.rule('R12.6', 'view -> iterator plumbing of the row/field transforms: self.X reaches the parameter named X')
     ctx.floor('plumbing_sites', check_plumbing(ctx, rep, 'R12.6', ['petl.transform.basics', 'petl.transform.headers', 'petl.transform.conversions', 'petl.transform.fills', 'petl.transform.maps', 'petl.transform.regex', 'petl.transform.unpacks', 'petl.util.base']), 90)
@@ -387,12 +393,29 @@ def r128(ctx, rep):
                         for e in t.elts:
                             if isinstance(e, ast.Name):
                                 assigns.setdefault(e.id, []).append(x.value)
+        # element-wise view of `a, b = x, y`
+        for x in own_nodes(fn.node):
+            if isinstance(x, ast.Assign) and len(x.targets) == 1 and isinstance(x.targets[0], ast.Tuple) and \
+                    isinstance(x.value, ast.Tuple) and len(x.value.elts) == len(x.targets[0].elts):
+                for t, v in zip(x.targets[0].elts, x.value.elts):
+                    if isinstance(t, ast.Name):
+                        assigns[t.id] = [v if w is x.value else w for w in assigns.get(t.id, [])]
         hdr_vars = set()
         for name, vals in assigns.items():
             for v in vals:
                 t = norm(v)
                 if t.startswith('next(') or t.startswith('tuple(next(') or t.startswith('iterpeek('):
                     hdr_vars.add(name)
+        # plain aliases of a header variable (`hdr = hdr_of_helper`), every binding being one
+        grew = True
+        while grew:
+            grew = False
+            for name, vals in assigns.items():
+                if name not in hdr_vars and vals and all(
+                        (isinstance(v, ast.Name) and v.id in hdr_vars) or norm(v) in ('[]', 'list()', '()') for v in vals) \
+                        and any(isinstance(v, ast.Name) for v in vals):
+                    hdr_vars.add(name)
+                    grew = True
         for c in calls:
             a = c.args[1]
             n += 1
